@@ -343,6 +343,24 @@ func c12Run(w *W) {
 			}
 			c.do(tran+" ps2.Close", func() (interface{}, error) { return nil, ps2.Close() })
 			c.do(tran+" s2.Close", func() (interface{}, error) { return nil, s2.Close() })
+			// (v) a bind that fails for good (not an address of this host), with a
+			// fixed port or with port 0: every other call on the listener still works
+			na := fmt.Sprintf("%s://203.0.113.7:%d", tran, []int{0, 5555}[w.Choose(simrt.SProg, 2)])
+			if tran == "ws" || tran == "wss" {
+				na += "/sp"
+			}
+			if tran != "ipc" && tran != "simipc" && tran != "sim" {
+				if l3, err := s.NewListener(na, w.EpOpts(na, true, nil)); err == nil {
+					r7 := c.do(tran+" l3.Listen(not a local address)", func() (interface{}, error) { return nil, l3.Listen() })
+					if r7.Returned() && r7.Err == nil {
+						w.Failf("HARNESS/plan", "listen on %s was expected to fail", na)
+					}
+					c.do(tran+" l3.Address(after failed Listen)", func() (interface{}, error) { return l3.Address(), nil })
+					c.do(tran+" l3.GetOption(after failed Listen)", func() (interface{}, error) { return l3.GetOption(mangos.OptionMaxRecvSize) })
+					c.do(tran+" l3.Listen(again)", func() (interface{}, error) { return nil, l3.Listen() })
+					c.do(tran+" l3.Close", func() (interface{}, error) { return nil, l3.Close() })
+				}
+			}
 			w.Probe("real-stream-endpoints-in-simulation")
 		}
 		if w.WedgeCheck("C12") {
